@@ -92,6 +92,8 @@ func Play(beh M, rng *rand.Rand, proj *Projection) ([]M, error) {
 		}
 	}
 	x.Lis.Close()
+	// the user's global parameter map after the run (must be untouched)
+	x.Log.Append(mem.Ev{"k": "x-global", "conn": conn.ID, "m": paramsObj(x.Global)})
 	p := &Projector{Conn: conn.ID, Proj: proj, SkipPre: proj != nil && proj.SkipPreamble}
 	for _, e := range x.Log.Events() {
 		p.Feed(e)
